@@ -76,6 +76,11 @@ def run(ctx):
                             "after every step the real index + storage are compared with the Lean World model and oracles judge every "
                             "unlink (fresh count of healthy archive copies elsewhere), every selection and every healthy copy's bytes. "
                             "distinct = whole op line sequence; non-trivial = at least 2 steps")
+    # dispatch stage (C01_no_overlapping_dispatch): the tasks one real update pass queues vs `iterateOps`, on worlds with
+    # duplicate requests; oracle: never two transfers of one file into one group in one pass
+    from props import c07
+    with envmod.Env() as e:
+        c07.compare_iterate(ctx, e, ctx.rng, 120 if ctx.quick() else 3000)
     if (not ok or ctx.corr_broken) and not [v for v in ctx.violations if v[3]]:
         # a proof obligation or the correspondence broke: directed search for a concrete failing history
         ctx.notes.append("directed search started (proof/correspondence broken)")
